@@ -58,7 +58,7 @@ def compile_match_expression(compiler, expr, root, subject, clauses):
 
         pattern = compile_pattern(compiler, pattern)
 
-        if guard:
+        if __GUARD_TEST__:
             guard = compiler.compile(guard)
             if guard.stmts:
                 fname = compiler.get_anon_var()
@@ -221,7 +221,16 @@ def translate(repo):
         raise ShapeChanged(RM + ": notsym")
     match_template(ast.parse(T_NOTSYM).body[0], notsym[0], {}, RM + ":notsym")
     fm = strip_doc(top_func(tree, "compile_match_expression", RM))
-    match_function(fm, T_MATCH, RM + ":compile_match_expression")
+    hm = match_function(fm, T_MATCH, RM + ":compile_match_expression")
+    # which guards are compiled: every one the clause has (`guard is not None`), or only those whose model is
+    # truthy (`guard`: a falsy literal such as 0, "", [] was dropped and the case matched unconditionally)
+    gt = ast.unparse(hm["__GUARD_TEST__"])
+    if gt == "guard is not None":
+        guard_kept = True
+    elif gt == "guard":
+        guard_kept = False
+    else:
+        raise ShapeChanged(RM + ": compile_match_expression: the guard test is `%s`" % gt)
     if len(fm.decorator_list) != 1 or ast.dump(fm.decorator_list[0]) != ast.dump(ast.parse(D_MATCH, mode="eval").body):
         raise ShapeChanged(RM + ": decorator of compile_match_expression changed")
     fp = strip_doc(top_func(tree, "compile_pattern", RM))
@@ -268,6 +277,8 @@ def translate(repo):
     o.append("Definition as_forbidden_mangled : string := %s." % q(as_wild))
     o.append("Definition or_min_alternatives : nat := %d." % mins["__OR_MIN__"])
     o.append("Definition value_min_symbols : nat := %d." % mins["__DOT_MIN__"])
+    o.append("(* whether compile_match_expression compiles a guard whose model is falsy (0, \"\", [], {}) *)")
+    o.append("Definition guard_kept_when_falsy : bool := %s." % ("true" if guard_kept else "false"))
     o.append("(* whether compile_pattern mangles the keyword of a class pattern into the attribute name *)")
     o.append("Definition kwd_attrs_mangled : bool := %s." % ("true" if kw_mangled else "false"))
     return {"Gen/MatchTables.v": "\n".join(o) + "\n"}
